@@ -278,6 +278,11 @@ def run_case(case):
                 S("tr2id", p.call("i", "ANtagref2id", V("an"), V("at%d" % q), V("ar%d" % q), bind="tmp"), q)
                 S("idtr2", p.call("i", "ANid2tagref", V("tmp"), Out(2), Out(2)), q)
         close_an()
+        # the single-file interface's own enumeration of file labels / descriptions (length, text, next ...)
+        S("nofail", p.call("i", "Hopen", path, 1, 0, bind="fe"), "Hopen for DFAN enumeration")
+        S("dfanenum", p.call("i", "hx_dfan_file_enum", V("fe"), 1, Out(8 * 64), 64, 70), FL)
+        S("dfanenum", p.call("i", "hx_dfan_file_enum", V("fe"), 0, Out(8 * 64), 64, 70), FD)
+        S("ret0", p.call("i", "Hclose", V("fe")), "Hclose")
         rr = run(p, cwd=d)
         # ---------------------------------------------------------------- check (sequential model)
         model = {}    # (ann_tag, ann_ref) -> dict(type, target, text)
@@ -449,6 +454,18 @@ def run_case(case):
                     if sorted(g[2] for g in got) != sorted([len(x["text"]) for x in wk.values()] +
                                                            [len(x["text"]) for x in wd]):
                         raise Fail("listed annotation lengths differ", target=list(TARGETS[ti]))
+                elif role == "dfanenum":
+                    t = a[0]
+                    want = sorted((len(x["text"]), sum(b * (i % 7 + 1) for i, b in enumerate(x["text"])) & 0x7fffffff)
+                                  for x in list(model.values()) + dfan_anns if x["type"] == t)
+                    v = un_i32s(r.bufs[0])
+                    got = sorted((v[2 * i], v[2 * i + 1]) for i in range(max(0, min(r.ret, 64))))
+                    if r.ret != len(want) or got != want:
+                        raise Fail("the DFAN enumeration of file %s differs from the annotations in the file" % (
+                            "labels" if t == FL else "descriptions"), returned=r.ret, expected=len(want),
+                            lengths_got=[g[0] for g in got][:10], lengths_expected=[w[0] for w in want][:10])
+                    if want:
+                        labels.add("dfan_file_enum")
                 elif role == "fileinfo":
                     c = [struct.unpack("=i", b)[0] for b in r.bufs]
                     want = [sum(1 for x in list(model.values()) + dfan_anns if x["type"] == t) for t in (FL, FD, DL, DD)]
